@@ -114,7 +114,7 @@ fn shape(class: u16, rtype: u16, a: &[u8]) -> &'static str {
 }
 
 pub fn run(ctx: &Ctx, rep: &mut Report) {
-    let n = if ctx.is_miri() { ctx.cases(40, 1600) } else { ctx.cases(60_000, 2_000_000) };
+    let n = if ctx.is_miri() { ctx.cases(40, 1600) } else { ctx.cases(60_000, 600_000) };
     for case in ctx.case_range(n) {
         rep.current_case = case;
         let mut rng = ctx.rng("c19", case);
